@@ -58,6 +58,11 @@ def c_rp_hash_of_other_string(s, r):
     o = s.origin
     cands = [o, o + "/", o.split("://")[-1], "https://" + s.rp_id, s.rp_id + ":443", authsim.b64u(s.challenge), s.cd_type, authsim.b64u(s.cred_id), " "]
     s.sign_rp_id = r.choice([c for c in cands if c != s.rp_id])
+def _shadowed(fault):
+    def f(s, r):
+        fault(s, r)
+        s.k["ao_shadow"] = r.choice([True, [1, 2, 3], [2], ["authdata", "auth_data"], ["authData ", "AuthData"], [2, "authenticatorData"]])
+    return f
 def c_cd_wrapped_as_string(s, r): s.k["cd_wrap"] = (r.choice([1, 2]), r.choice([b"", b" ", b"\n"]))
 def c_origin_substring(s, r):
     s.exp_origin = "https://example.com:8443"
@@ -313,6 +318,27 @@ FORMAT_FAULTS = {
         "timestamp-nan": set_k(sn_timestamp=float("nan")), "timestamp-old-cts-false": set_k(sn_timestamp=(T0 - 3600) * 1000, sn_cts=False),
     },
 }
+# KeyDescription faults under every attestation / Keymaster version and security level a device may report: the rules on purpose, origin and
+# allApplications do not depend on them
+AK_VERSIONS = [(1, 0), (1, 1), (1, 2), (2, 3), (3, 4), (4, 41), (100, 100), (200, 200), (300, 300), (400, 400), (0, 0), (3, 2)]
+def _ak_versioned(fault):
+    def f(s, r):
+        fault(s, r)
+        s.k["ak_versions"] = r.choice(AK_VERSIONS)
+        s.k["ak_levels"] = r.choice([(1, 1), (0, 0), (2, 2), (1, 0), (0, 1)])
+    return f
+for _n in ("purpose-verify", "purpose-sign-and-verify", "purpose-absent", "origin-imported", "origin-absent", "allApplications-software", "allApplications-tee",
+           "origin-only-software-enforced", "purpose-only-software-enforced", "challenge-other"):
+    FORMAT_FAULTS["android-key"][_n + ":other-keymaster-versions"] = _ak_versioned(FORMAT_FAULTS["android-key"][_n])
+# TPM extraData that is a PART of the right digest (a prefix or suffix of digest-size length of a shorter hash), under the longer hashes
+def tpm_extra_part_of_digest(s, r):
+    s.att_kind = r.choice(["RS384", "RS512", "PS384", "PS512", "ES512-P521", "RS256", "RS1"])
+    size = {"RS384": 48, "PS384": 48, "RS512": 64, "PS512": 64, "ES512-P521": 64, "RS256": 32, "RS1": 20}[s.att_kind]
+    n = r.choice([x for x in (32, 20, 48, 28, 16, 33) if x < size])
+    s.k["tpm_extra_cut" if r.random() < 0.6 else "tpm_extra_tail"] = n
+FORMAT_FAULTS["tpm"]["extradata-part-of-the-digest"] = tpm_extra_part_of_digest
+for _n in ("rp-id-other", "up-clear-required", "uv-clear-required", "alg-not-allowed", "bs-without-be"):
+    CEREMONY[_n + ":shadow-members-in-the-attestation-object"] = _shadowed(CEREMONY[_n])
 # entries that make an inner structure MALFORMED (not a well-formed response rejected for a semantic reason): C19 does not demand a
 # library exception for them (observations O3/O4 in DESIGN section 4): an attested Name too short to carry its algorithm id makes the
 # TPM structure parser raise KeyError; a credential key that is no point of its declared curve makes `cryptography` raise ValueError
